@@ -5,56 +5,64 @@ that a public constructor can have produced (`NormalC`)
 -/
 namespace PySMT.Manager
 
-theorem createNode_next (c : Content) (s : Mgr) :
-    (createNode c s).2.nextId = s.nextId ∨
-    ((createNode c s).2.nextId = s.nextId + 1 ∧ (createNode c s).1 = .ok s.nextId) := by
-  unfold createNode
+/-- a step that adds at most one node, of content `c` (whether or not it is returned: the
+    type checker may reject a node that was inserted) -/
+def NewIs (s s' : Mgr) (c : Content) : Prop :=
+  s'.nextId = s.nextId ∨ (s'.nextId = s.nextId + 1 ∧ (c, s.nextId) ∈ s'.formulae)
+
+theorem createNode_next (c : Content) (s : Mgr) : NewIs s (createNode c s).2 c := by
+  rw [createNode_state]
+  unfold createNodeU
   split
   · split
     · exact Or.inl rfl
-    · exact Or.inr ⟨rfl, rfl⟩
+    · exact Or.inr ⟨rfl, by simp⟩
   · exact Or.inl rfl
 
-/-- a step that creates at most the returned node -/
-def AtMostNew (s : Mgr) (r : Except Err Nid) (s' : Mgr) : Prop :=
-  s'.nextId = s.nextId ∨ (s'.nextId = s.nextId + 1 ∧ r = .ok s.nextId)
+theorem NewIs.with {s s1 s2 : Mgr} {c : Content} (h : NewIs s s1 c) (hn : s2.nextId = s1.nextId)
+    (hf : s2.formulae = s1.formulae) : NewIs s s2 c := by
+  rcases h with h | ⟨h1, h2⟩
+  · exact Or.inl (hn.trans h)
+  · exact Or.inr ⟨hn.trans h1, hf ▸ h2⟩
 
-theorem intConst_next (v : PyNum) (s : Mgr) : AtMostNew s (intConst v s).1 (intConst v s).2 := by
+theorem intConst_next (n : Int) (s : Mgr) : NewIs s (intConst (.int n) s).2 (intC n) := by
   unfold intConst
-  cases v.intValue with
-  | error e => exact Or.inl rfl
-  | ok n =>
-    simp only
-    split
-    · exact Or.inl rfl
-    · have := createNode_next (intC n) s
-      generalize createNode (intC n) s = r at this
-      obtain ⟨r1, s1⟩ := r
-      cases r1 <;> exact this
+  simp only [PyNum.intValue]
+  split
+  · exact Or.inl rfl
+  · have := createNode_next (intC n) s
+    generalize createNode (intC n) s = r at this
+    obtain ⟨r1, s1⟩ := r
+    cases r1 with
+    | error e => exact this
+    | ok i => exact this.with rfl rfl
 
-theorem realConst_next (v : PyNum) (s : Mgr) : AtMostNew s (realConst v s).1 (realConst v s).2 := by
+theorem realConst_next (v : PyNum) (s : Mgr) {q : Rat} (hv : v.realValue = .ok q) :
+    NewIs s (realConst v s).2 (realC q) := by
   unfold realConst
-  cases v.realValue with
-  | error e => exact Or.inl rfl
-  | ok q =>
-    simp only
-    split
-    · exact Or.inl rfl
-    · have := createNode_next (realC q) s
-      generalize createNode (realC q) s = r at this
-      obtain ⟨r1, s1⟩ := r
-      cases r1 <;> exact this
+  rw [hv]
+  simp only
+  split
+  · exact Or.inl rfl
+  · have := createNode_next (realC q) s
+    generalize createNode (realC q) s = r at this
+    obtain ⟨r1, s1⟩ := r
+    cases r1 with
+    | error e => exact this
+    | ok i => exact this.with rfl rfl
 
-theorem strConst_next (x : String) (s : Mgr) : AtMostNew s (strConst x s).1 (strConst x s).2 := by
+theorem strConst_next (x : String) (s : Mgr) : NewIs s (strConst x s).2 (strC x) := by
   unfold strConst
   split
   · exact Or.inl rfl
   · have := createNode_next (strC x) s
     generalize createNode (strC x) s = r at this
     obtain ⟨r1, s1⟩ := r
-    cases r1 <;> exact this
+    cases r1 with
+    | error e => exact this
+    | ok i => exact this.with rfl rfl
 
-theorem symbolPrim_next (x : String) (t : Ty) (s : Mgr) : AtMostNew s (symbolPrim x t s).1 (symbolPrim x t s).2 := by
+theorem symbolPrim_next (x : String) (t : Ty) (s : Mgr) : NewIs s (symbolPrim x t s).2 (symC x t) := by
   unfold symbolPrim
   split
   · split
@@ -65,7 +73,9 @@ theorem symbolPrim_next (x : String) (t : Ty) (s : Mgr) : AtMostNew s (symbolPri
     · have := createNode_next (symC x t) s
       generalize createNode (symC x t) s = r at this
       obtain ⟨r1, s1⟩ := r
-      cases r1 <;> exact this
+      cases r1 with
+      | error e => exact this
+      | ok i => exact this.with rfl rfl
 
 /-- equal trees have equal root shapes and as many references -/
 theorem shape_of_struct_eq {src tgt : Mgr} (hsrc : Inv src) (ht : Inv tgt) {a b : Nid} {ca cb : Content}
@@ -88,9 +98,9 @@ theorem copy_of_content {src tgt : Mgr} (hsrc : Inv src) (ht : Inv tgt) {c c' : 
   intro a ha
   exact (hg a ha).eq
 
-theorem newCopies_of_step {src tgt tgt' : Mgr} {r : Except Err Nid} {i : Nid}
-    (i0 : 0 < i) (i1 : i < src.nextId) (hstep : AtMostNew tgt r tgt')
-    (hcopy : ∀ j, r = .ok j → Copy src tgt' i j) : NewCopies src tgt tgt' := by
+theorem newCopies_of_step {src tgt tgt' : Mgr} {c' : Content} {i : Nid}
+    (i0 : 0 < i) (i1 : i < src.nextId) (hstep : NewIs tgt tgt' c')
+    (hcopy : ∀ j, (c', j) ∈ tgt'.formulae → Copy src tgt' i j) : NewCopies src tgt tgt' := by
   intro b hb1 hb2
   rcases hstep with h | ⟨h1, h2⟩
   · omega
@@ -109,11 +119,11 @@ theorem create_copy {src tgt : Mgr} (hsrc : Inv src) (ht : Inv tgt) {c c' : Cont
   have hnext := createNode_next c' tgt
   rw [hrun] at hspec hnext
   obtain ⟨hi', he, hmem, _⟩ := hspec
-  have hcp : ∀ j, r = .ok j → Copy src tgt' i j := by
+  have hcp : ∀ j, (c', j) ∈ tgt'.formulae → Copy src tgt' i j := by
     intro j hj
-    exact copy_of_content hsrc hi' hc (hmem j hj) hshape g hids (fun a ha => (hg a ha).mono ht hi' he)
+    exact copy_of_content hsrc hi' hc hj hshape g hids (fun a ha => (hg a ha).mono ht hi' he)
   have hr := hsrc.range _ _ hc
-  exact ⟨hi', he, newCopies_of_step hr.1 hr.2 hnext hcp, hcp⟩
+  exact ⟨hi', he, newCopies_of_step hr.1 hr.2 hnext hcp, fun j hj => hcp j (hmem j hj)⟩
 
 theorem shape_map (nt : Nat) (args : List Nid) (pl : Payload) (g : Nid → Nid) (hpl : pl.ids = []) :
     (Content.mk nt (args.map g) pl).shape = (Content.mk nt args pl).shape ∧
@@ -180,13 +190,13 @@ theorem recSpec_bvConst {src : Mgr} (hsrc : Inv src) (addr : Nid → Nat) (same 
 /-- a primitive that returns the node of the (reference-free) source content -/
 theorem prim_copy {src tgt : Mgr} (hsrc : Inv src) {c : Content} {i : Nid}
     (hc : (c, i) ∈ src.formulae) (hids : c.ids = []) {r : Except Err Nid} {tgt' : Mgr}
-    (hspec : PrimSpec tgt (r, tgt')) (hnext : AtMostNew tgt r tgt')
+    (hspec : PrimSpec tgt (r, tgt')) (hnext : NewIs tgt tgt' c)
     (hmem : ∀ j, r = .ok j → (c, j) ∈ tgt'.formulae) :
     Inv tgt' ∧ Ext tgt tgt' ∧ NewCopies src tgt tgt' ∧ ∀ j, r = .ok j → Copy src tgt' i j := by
-  have hcp : ∀ j, r = .ok j → Copy src tgt' i j := fun j hj =>
-    copy_of_content hsrc hspec.inv hc (hmem j hj) rfl id (by simp [hids]) (by simp [hids])
+  have hcp : ∀ j, (c, j) ∈ tgt'.formulae → Copy src tgt' i j := fun j hj =>
+    copy_of_content hsrc hspec.inv hc hj rfl id (by simp [hids]) (by simp [hids])
   have hr := hsrc.range _ _ hc
-  exact ⟨hspec.inv, hspec.ext, newCopies_of_step hr.1 hr.2 hnext hcp, hcp⟩
+  exact ⟨hspec.inv, hspec.ext, newCopies_of_step hr.1 hr.2 hnext hcp, fun j hj => hcp j (hmem j hj)⟩
 
 theorem recSpec_real {src : Mgr} (hsrc : Inv src) (addr : Nid → Nat) (same : Bool) (q : Rat) (i : Nid) :
     RecSpec src addr same ⟨NT.REAL_CONSTANT, [], .rat q⟩ i := by
@@ -196,7 +206,7 @@ theorem recSpec_real {src : Mgr} (hsrc : Inv src) (addr : Nid → Nat) (same : B
   rw [show (Content.mk NT.REAL_CONSTANT [] (.rat q)).args = [] from rfl, hrec, mkReal, prim_run] at hrun
   simp only [Prim.exec] at hrun
   have hsp := realConst_spec (.frac q) tgt ht
-  have hn := realConst_next (.frac q) tgt
+  have hn := realConst_next (.frac q) tgt (q := q) rfl
   rw [hrun] at hsp hn
   refine prim_copy hsrc hc rfl hsp.1 hn (fun j hj => ?_)
   obtain ⟨q', hq', hm⟩ := hsp.2 j hj
@@ -212,7 +222,7 @@ theorem recSpec_int {src : Mgr} (hsrc : Inv src) (addr : Nid → Nat) (same : Bo
   rw [show (Content.mk NT.INT_CONSTANT [] (.int n)).args = [] from rfl, hrec, mkInt, prim_run] at hrun
   simp only [Prim.exec] at hrun
   have hsp := intConst_spec (.int n) tgt ht
-  have hn := intConst_next (.int n) tgt
+  have hn := intConst_next n tgt
   rw [hrun] at hsp hn
   refine prim_copy hsrc hc rfl hsp.1 hn (fun j hj => ?_)
   obtain ⟨m, hm1, hm⟩ := hsp.2 j hj
@@ -325,11 +335,11 @@ theorem create_copy₂ {src tgt : Mgr} (hsrc : Inv src) (ht : Inv tgt) {c c' : C
   have hnext := createNode_next c' tgt
   rw [hrun] at hspec hnext
   obtain ⟨hi', he, hmem, _⟩ := hspec
-  have hcp : ∀ j, r = .ok j → Copy src tgt' i j := by
+  have hcp : ∀ j, (c', j) ∈ tgt'.formulae → Copy src tgt' i j := by
     intro j hj
-    exact copy_of_content₂ hsrc hi' hc (hmem j hj) hshape (forall₂_mono ht hi' he hids)
+    exact copy_of_content₂ hsrc hi' hc hj hshape (forall₂_mono ht hi' he hids)
   have hr := hsrc.range _ _ hc
-  exact ⟨hi', he, newCopies_of_step hr.1 hr.2 hnext hcp, hcp⟩
+  exact ⟨hi', he, newCopies_of_step hr.1 hr.2 hnext hcp, fun j hj => hcp j (hmem j hj)⟩
 
 theorem forall₂_of_map {src tgt : Mgr} (g : Nid → Nid) : ∀ (l : List Nid), (∀ a ∈ l, Copy src tgt a (g a)) →
     All₂ (Copy src tgt) l (l.map g)
